@@ -76,6 +76,7 @@ pub fn inst_ty(s: &str) -> Ty {
         "@extw" => Ty::ExtW,
         "@sink" => Ty::Sink,
         "@bytes" => Ty::Bytes,
+        "@src" => Ty::Src,
         _ => Ty::Named(s.to_string()),
     }
 }
@@ -171,7 +172,8 @@ impl World {
                     "Option" => Ty::Opt(Box::new(arg0()?)),
                     "Result" => Ty::Res(Box::new(arg0()?)),
                     "Bound" => Ty::Bound(Box::new(arg0()?)),
-                    "ReaderCursor" => Ty::Cursor,
+                    // the cursor held by the iterators is external (`step`) — until `ReaderCursor` itself is translated
+                    "ReaderCursor" if !self.structs.contains_key("ReaderCursor") => Ty::Cursor,
                     "Self" => generics.get("Self").cloned().ok_or("Self outside an impl")?,
                     n if generics.contains_key(n) => generics[n].clone(),
                     n if self.structs.contains_key(n) || self.enums.contains_key(n) => Ty::Named(n.to_string()),
